@@ -61,6 +61,8 @@ type State struct {
 	loopHeap  map[*ssa.BasicBlock]*Heap
 	closOrd   int
 	dead      bool
+	forked    []*ssa.Go
+	joinBase  Term
 }
 
 func (s *State) clone() *State {
@@ -79,6 +81,8 @@ func (s *State) clone() *State {
 		n.iters[k] = v
 	}
 	n.threads = append([]*threadRec{}, s.threads...)
+	n.forked = append([]*ssa.Go{}, s.forked...)
+	n.joinBase = s.joinBase
 	for k, v := range s.wgAdded {
 		n.wgAdded[k] = v
 	}
@@ -121,6 +125,15 @@ func (vc *VC) alloc(st *State, hint string) Term {
 	st.assume = append(st.assume, app(">", a, vc.top(st)), app(">", a, "0"))
 	vc.setHeap(st, "top", "Int", a)
 	return a
+}
+
+// isPlainStruct: a struct type stored by value whose fields are modelled individually.
+func isPlainStruct(t types.Type) bool {
+	if _, opaque := isOpaqueStruct(t); opaque {
+		return false
+	}
+	_, ok := types.Unalias(t).Underlying().(*types.Struct)
+	return ok
 }
 
 func isRefLike(t types.Type) bool {
@@ -290,7 +303,11 @@ func (vc *VC) zeroInit(st *State, ref Term, t types.Type) {
 	if !ok {
 		return
 	}
-	for i := 0; i < stt.NumFields(); i++ {
+	external := false
+	if n, ok := types.Unalias(t).(*types.Named); ok && n.Obj().Pkg() != nil && !isRepoPkg(n.Obj().Pkg().Path()) {
+		external = true // library types are known through their ghost fields only
+	}
+	for i := 0; i < stt.NumFields() && !external; i++ {
 		f := stt.Field(i)
 		arr, subobj := fieldArr(t, f)
 		if subobj {
@@ -380,11 +397,17 @@ func (vc *VC) fnEnv(st *State, old *Heap) *Env {
 		for _, fv := range fn.FreeVars {
 			if fv.Name() == name {
 				et, _ := derefType(fv.Type())
+				if isPlainStruct(et) {
+					return TV{T: st.vals[fv].T, S: goSType(fv.Type())}, true
+				}
 				s := sortOf(et)
 				return TV{T: app("select", vc.hget(ce.heap, cellArr(s), arrSort(s)), st.vals[fv].T), S: goSType(et)}, true
 			}
 		}
 		return TV{}, false
+	}
+	if vc.effective != nil && vc.effective.Thread {
+		e.vars["tid"] = TV{T: vc.d.declConst("tid_self", "Int"), S: stInt}
 	}
 	if vc.effective != nil && len(vc.effective.Lets) > 0 {
 		vc.bindSelf(e)
@@ -461,6 +484,9 @@ func (vc *VC) loopEnv(st *State, li *loopInfo, old *Heap) *Env {
 				// address-taken locals: the value is the cell address; dereference
 				if al, isAlloc := v.(*ssa.Alloc); isAlloc {
 					et := al.Type().(*types.Pointer).Elem()
+					if isPlainStruct(et) {
+						return TV{T: x.T, S: goSType(al.Type())}, true
+					}
 					s := sortOf(et)
 					return TV{T: app("select", vc.hget(ce.heap, cellArr(s), arrSort(s)), x.T), S: goSType(et)}, true
 				}
@@ -585,6 +611,49 @@ func (vc *VC) loopModifies(st *State, li *loopInfo) map[string]*modInfo {
 				}
 				add(mapDomArr(ks), mapDomSort(ks), base, inv, false)
 				add(mapValArr(ks, vs), mapValSort(ks, vs), base, inv, false)
+			case *ssa.Go:
+				add("GV_Forks", "Int", "", false, true)
+				vc.hget(st.heap, "GV_Forks", "Int")
+				if mc, ok := x.Call.Value.(*ssa.MakeClosure); ok {
+					tfn := mc.Fn.(*ssa.Function)
+					for _, p := range tfn.Params {
+						add(forkArgArr(tfn, p.Name()), arrSort(sortOf(p.Type())), "", false, false)
+					}
+					if c := vc.lookupContract(funcKey(tfn)); c != nil && c.ThreadWG != nil {
+						// the WaitGroup is loop-invariant when the closure's bindings are defined outside the loop
+						inv := true
+						var binds []Term
+						for _, b := range mc.Bindings {
+							if inLoop(b) {
+								inv = false
+							} else if bv, ok := st.vals[b]; ok {
+								binds = append(binds, bv.T)
+							} else {
+								inv = false
+							}
+						}
+						var base Term
+						if inv {
+							ci := &calleeInfo{key: funcKey(tfn), contract: c, sig: tfn.Signature, fn: tfn, closure: mc, closureBind: binds}
+							for _, p := range tfn.Params {
+								ci.args = append(ci.args, TV{T: vc.d.declConst("unknown_"+sortID(sortOf(p.Type())), sortOf(p.Type())), S: goSType(p.Type())})
+							}
+							func() {
+								defer func() {
+									if r := recover(); r != nil {
+										if _, ok := r.(specError); ok {
+											inv = false
+											return
+										}
+										panic(r)
+									}
+								}()
+								base = vc.calleeEnv(ci, st.heap, st.heap).tr(c.ThreadWG).T
+							}()
+						}
+						add("G_sync_WaitGroup_Forked", arrSort("Int"), base, inv, false)
+					}
+				}
 			case ssa.CallInstruction:
 				vc.modOfCall(st, x, inLoop, add)
 			case *ssa.Next:
@@ -1068,6 +1137,11 @@ func (vc *VC) execInstr(st *State, ins ssa.Instruction) {
 	case *ssa.Store:
 		addr := vc.val(st, x.Addr)
 		v := vc.val(st, x.Val)
+		if c, isC := x.Val.(*ssa.Const); isC && c.Value == nil && isPlainStruct(x.Val.Type()) && addr.Loc == nil {
+			// *p = T{}: reset every field
+			vc.zeroInit(st, addr.T, x.Val.Type())
+			return
+		}
 		if v.T == "" {
 			// storing a struct value: only the zero value of a non-opaque struct is supported
 			vc.unsupported(x, "store of %v", x.Val.Type())
